@@ -27,8 +27,8 @@ From Coq Require Import List Arith Bool.
 From GI Require Import Gen.ParConsts.
 Import ListNotations.
 
-Definition item := nat.
-Definition thread := nat.
+Notation item := nat (only parsing).
+Notation thread := nat (only parsing).
 
 Inductive pc := Top | Parked | Woken | Run (i : item) (j : nat) | Done.
 
@@ -41,7 +41,7 @@ Record state := mkState {
   finished : list item  (* ghost *)
 }.
 
-Fixpoint set_nth {A : Type} (k : nat) (x : A) (l : list A) : list A :=
+Fixpoint set_nth {A : Type} (k : nat) (x : A) (l : list A) {struct l} : list A :=
   match l with
   | [] => []
   | a :: r => match k with 0 => x :: r | S k' => a :: set_nth k' x r end
